@@ -12,11 +12,14 @@ OwnerRows == {r \in Rows : r.own \in {"id", "signer"}}
 (* Abstract position state: who owns it and a version that every successful move / reduce / close bumps. *)
 Pos0 == [owner |-> "owner", ver |-> 0]
 (* The step as the handlers implement it: a message that names the position by id is refused for a foreign
-   signer; a message keyed by its signer acts on the signer's own position and leaves pos untouched. *)
-OwnerStep(pos, r, signer) ==
-  IF r.own = "id"
-  THEN IF signer = pos.owner THEN [ok |-> TRUE, pos |-> [pos EXCEPT !.ver = pos.ver + 1]] ELSE [ok |-> FALSE, pos |-> pos]
-  ELSE IF signer = pos.owner THEN [ok |-> TRUE, pos |-> [pos EXCEPT !.ver = pos.ver + 1]] ELSE [ok |-> signer = "other", pos |-> pos]
+   signer; a message keyed by its signer acts on the signer's OWN position: whether it succeeds depends on what the
+   signer holds (environment choice `env`), and it leaves the owner's position pos untouched. *)
+OwnerStep(pos, r, signer, env) ==
+  IF signer = pos.owner THEN [ok |-> TRUE, pos |-> [pos EXCEPT !.ver = pos.ver + 1]]
+  ELSE IF r.own = "id" THEN [ok |-> FALSE, pos |-> pos]
+  ELSE [ok |-> env, pos |-> pos]
+(* the outcome is predicted by the spec unless it is the signer's own business *)
+OwnerPredicted(r, signer) == r.own = "id" \/ signer = "owner"
 
 (* The property on one step (statement: "succeeds only when signed by that position's owner, and a rejected
    attempt changes no balance and no record"):
